@@ -314,8 +314,12 @@ static BuiltStream buildStream(int ep, int tmpl, int var)
             uint8_t seg = q == 0 ? ref::SEG_FIRST : (q + 1 == k ? ref::SEG_LAST : ref::SEG_MID);
             Bytes body(content.begin() + off, content.begin() + off + sz[q]);
             off += sz[q];
-            // later segments carry a different timestamp: the delivered header must be the first segment's
-            ref::Msg m = ref::mkMsg(ptype, body, (uint8_t) (0x02 | (seg << 2)), ts + q, id);
+            // later segments differ from the first in EVERY header field a segment may legitimately differ in (timestamp,
+            // interface id word, and the common flags other than segmentation / error-in-payload, in both directions: set on
+            // the first only, set on a later one only): the delivered header must be the first segment's
+            const uint8_t firstFlags = (var & 1) ? 0x32 : 0x02;
+            const uint8_t segFlags = q == 0 ? firstFlags : (uint8_t) ((firstFlags ^ ((q & 1) ? 0x31 : 0x13)) & 0x33);
+            ref::Msg m = ref::mkMsg(ptype, body, (uint8_t) (segFlags | (seg << 2)), ts + q, q == 0 ? id : id ^ (0x01010101u * (uint32_t) q));
             Bytes f = ref::buildFrame(fh(seq++), {m});
             for (int z = 0; z < v.trail; ++z)
                 f.push_back((uint8_t) (0xE0 + z));   // bytes after the declared segment length
@@ -325,7 +329,7 @@ static BuiltStream buildStream(int ep, int tmpl, int var)
             {
                 ref::Delivered d;
                 d.device = kEp[ep].dev; d.stream = kEp[ep].str; d.version = v.ver; d.msgType = ref::MT_DATA;
-                d.h.ts = ts; d.h.idword = id; d.h.flags = 0x02; d.h.ptype = ptype; d.h.plen = (uint16_t) total;
+                d.h.ts = ts; d.h.idword = id; d.h.flags = (var & 1) ? 0x32 : 0x02; d.h.ptype = ptype; d.h.plen = (uint16_t) total;
                 d.payload = content;
                 d.reassembled = true;
                 exp.push_back(d);
